@@ -16,7 +16,7 @@ THOROUGH = QUICK + [(1, 4, 3), (2, 4, 2), (2, 3, 3), (3, 3, 3), (3, 4, 2), (4, 3
 def describe(tier):
     cfg = QUICK if tier == "quick" else THOROUGH
     return {
-        "rule": "empty-entry family: 1..3 dimensions (2 rows) where one dimension additionally carries an explicitly empty entry - nothing may be presented for it; long family: N=18(24) rows, one dimension holding a contiguous run of 8..10(17) rows of one category and another with 1-2 sparse rows, both orders and a 3-dimension variant; and for each (D dims, N rows, E categories) in %r: every data vector over {0..E-1} per dimension and every common value in 0..E per "
+        "rule": "empty-entry family: 1..3 dimensions (2 rows) where one dimension additionally carries an explicitly empty entry - nothing may be presented for it; long family: N=18(24) rows, one dimension holding a contiguous run of 8..10(17) rows of one category and another with 1-2 sparse rows, both orders and a 3-dimension variant; populous family: 17..70(260) rows under every ordered pair (and four triples) of six row patterns (constant, r mod 2, r mod 3, a mixing pattern, halves, reversed r mod 3) so that every cell holds many rows, three choices of common values; and for each (D dims, N rows, E categories) in %r: every data vector over {0..E-1} per dimension and every common value in 0..E per "
         "dimension (E = absent); the log of (coords, rows) delivered to interactions() and to two callbacks of walk([f, g]) must equal, as a multiset, "
         "{(c, rows(c)) : c in prod(uncommon_d u {-1}) minus all -1, rows(c) non-empty}; each row array strictly increasing uint32. "
         "Non-trivial: D >= 2 and at least one expected combination mixing a marginal and an uncommon coordinate. Distinct = distinct (data, commons)." % (cfg,),
@@ -50,9 +50,35 @@ def long_cases(tier):
     return out
 
 
+# Many rows per cell (every cell holds 5..40 rows): a walk that groups rows by sorting / bucketing instead of merging must still deliver
+# increasing row ids; NumPy's sorts change algorithm at 16 elements.
+POP_N = {"quick": [17, 18, 33, 40, 70], "thorough": [17, 18, 33, 40, 70, 130, 260]}
+POP_PATTERNS = {
+    "const1": lambda r, N: 1,
+    "mod2": lambda r, N: r % 2,
+    "mod3": lambda r, N: r % 3,
+    "mix": lambda r, N: (r * 7) % 5 % 3,
+    "halves": lambda r, N: 1 if r < N // 2 else 2,
+    "rev3": lambda r, N: (N - r) % 3,
+}
+
+
+def populous_cases(tier):
+    names = sorted(POP_PATTERNS)
+    out = []
+    for N in POP_N[tier]:
+        for a in names:
+            for b in names:
+                out.append((N, (a, b)))
+        for t in (("mod2", "mod3", "mix"), ("mix", "halves", "mod3"), ("const1", "rev3", "mod2"), ("mod3", "const1", "rev3")):
+            out.append((N, t))
+    return out
+
+
 def blocks(tier):
     cfg = QUICK if tier == "quick" else THOROUGH
     out = [("long", {"tier": tier, "i": i}) for i in range(len(long_cases(tier)))]
+    out += [("populous", {"tier": tier, "i": i}) for i in range(len(populous_cases(tier)))]
     out += [("emptyentry", {"D": D, "pos": pos}) for D in (1, 2, 3) for pos in range(D)]
     for D, N, E in cfg:
         n0 = len(dim_opts(N, E))
@@ -140,6 +166,14 @@ def run_block(family, p, acc):
             commons = [c for t, c in combo]
             exp = check_with_empty_entry(datas, commons, pos, acc)
             acc.case(("empty", pos, tuple(datas), tuple(commons)), nontrivial=D >= 2, outcome=("empty", D, len(exp)), sample={"data": [list(t) for t in datas], "commons": commons, "empty_entry_in_dim": pos})
+        return
+    if family == "populous":
+        N, pats = populous_cases(p["tier"])[p["i"]]
+        datas = [tuple(POP_PATTERNS[n](r, N) for r in range(N)) for n in pats]
+        for commons in ([0] * len(pats), [2] + [0] * (len(pats) - 1), [0] * (len(pats) - 1) + [1]):
+            case = {"data": [list(t) for t in datas], "commons": commons, "populous": [N, list(pats)]}
+            exp = check(datas, commons, acc, case)
+            acc.case((tuple(datas), tuple(commons)), nontrivial=True, outcome=("populous", len(pats), len(exp)), sample={"rows": N, "patterns": list(pats), "commons": commons})
         return
     if family == "long":
         tier = p["tier"]
